@@ -122,13 +122,28 @@ def run(s):
     s.oblige("C20.disp2eig.lemma.restores_orthonormal_basis", restores_basis, [D2E])
 
     def rejects():
-        for N, width in ((2, 5), (2, 7), (1, 2), (3, 6)):
-            try:
-                d2e.evec_disp2eig(numpy.ones((2, width)), [1.0] * N)
-                return core.refuted("finite", "displacement matrix of width %d with %d masses is accepted" % (width, N), witness_id="d2e-reject", replay={"reproduced": True})
-            except RuntimeError:
-                pass
-        return core.proved("finite", "width != 3N raises RuntimeError")
+        # complete over small shapes: M vectors of w components with N masses is a mismatch exactly when w != 3 N -- also when M w happens to be a multiple of 3 N
+        # (six 6-vectors with three masses, two 3-vectors with two masses: a re-cut into other rows is not a conversion of the vectors that were given)
+        n = 0
+        for N in range(1, 5):
+            mass = [1.0 + 0.5 * k for k in range(N)]
+            for M in range(1, 8):
+                for w in range(1, 14):
+                    a = numpy.arange(1.0, M * w + 1.0).reshape(M, w)
+                    n += 1
+                    try:
+                        out = d2e.evec_disp2eig(a.copy(), list(mass))
+                    except Exception:  # noqa: BLE001 - which exception signals the rejection is the code's choice
+                        if w == 3 * N:
+                            return core.refuted("finite", "%d displacement vector(s) of %d components with %d masses (matching dimensions) are rejected" % (M, w, N), witness_id="d2e-accept",
+                                                replay={"reproduced": True, "shape": [M, w], "masses": N})
+                        continue
+                    if w != 3 * N:
+                        return core.refuted("finite", "%d displacement vector(s) of %d components with %d masses are accepted (result of shape %s)" % (M, w, N, numpy.shape(out)),
+                                            witness_id="d2e-reject", replay={"reproduced": True, "shape": [M, w], "masses": N})
+                    if numpy.shape(out) != (M, w):
+                        return core.refuted("finite", "result of shape %s for %d vectors of %d components" % (numpy.shape(out), M, w), witness_id="d2e-shape", replay={"reproduced": True})
+        return core.proved("finite", "%d shapes (1-7 vectors x 1-13 components x 1-4 masses): accepted exactly when the width is 3 N, result of the input's shape" % n)
     s.oblige("C20.disp2eig.rejects_dimension_mismatch", rejects, [D2E], kind="finite")
 
     sort_loop_rule(s)
@@ -903,6 +918,10 @@ def bounded_load(s):
                 for k in range(npm):
                     thz = round(float(rnd.uniform(-2, 60)), 6)
                     vec = numpy.round(rnd.uniform(-1, 1, size=npm), 6) + 1j * numpy.round(rnd.uniform(-1, 1, size=npm), 6)
+                    if k % 3 == 0:
+                        # the ends of what an F10.6 field can print: the smallest non-zero magnitudes (weakly coupled components) and the largest
+                        edge = [1e-6, -1e-6, 2e-6, -0.000009, 9.999999, -9.999999, 0.0]
+                        vec[k % npm] = edge[(k // 3 + q) % len(edge)] + 1j * edge[(k // 3 + q + 3) % len(edge)]
                     ms.append((thz, round(thz * 33.35641, 6), vec))
                 modes.append(ms)
             p = os.path.join(tmp, "f.eig")
